@@ -87,12 +87,12 @@ def run(ck, rng, tier):
         ck.count("scaling %d" % scaling)
         ck.count("magnitude %g" % mag)
         ck.count("metamorphic %s" % kind)
-    rc, outs, err = vf.run_driver(exe, "cap 400000\n" + "\n".join(lines) + "\n", timeout=1500)
-    if rc != 0 or len(outs) != len(meta):
-        ck.broken("driver drv_pca", "rc=%s cases=%d/%d %s" % (rc, len(outs), len(meta), err[-800:]))
-        return
+    outs = vf.run_driver_cases(ck, exe, lines, lambda k: ("PCA", {"X": np.array(meta[k][1]).tolist(), "scaling": meta[k][2], "npc": meta[k][3]}),
+                               header="cap 400000\n", timeout=1500)
     base = None
     for i, (mt, o) in enumerate(zip(meta, outs)):
+        if o is None:
+            continue
         kind, X, scaling, npc, mag = mt[0], mt[1], mt[2], mt[3], mt[4]
         n, m = X.shape
         if o.get("nonterminating"):
